@@ -326,3 +326,38 @@ def write_replay(pid, obj):
     p = '%s/replays/%s-%s.json' % (V, pid, h)
     json.dump(obj, open(p, 'w'), indent=1, sort_keys=True)
     return p
+
+
+# ---------------------------------------------------------------- extraction cross-check
+
+def incoq_crosscheck(lines, ml_out, limit=120):
+    """Evaluate a slice of the cases INSIDE Coq (vm_compute on Driver.dispatch) and compare with
+    what the extracted OCaml driver printed: keeps extraction and the OCaml glue honest.
+    Returns (n_checked, n_mismatch, message)."""
+    pick = [(l, o) for l, o in zip(lines, ml_out) if len(l) < 1500 and len(o) < 3000 and not l.startswith(('disk', 'findseq'))]
+    step = max(1, len(pick) // limit)
+    pick = pick[::step][:limit]
+    if not pick:
+        return 0, 0, ''
+
+    def blist(b):
+        return '[' + ';'.join(str(x) for x in b) + ']'
+    items = []
+    for l, o in pick:
+        f = l.split(' ')
+        args = [f[0].encode('latin-1')] + [unhx(x) for x in f[1:]]
+        items.append('(%s, %s)' % ('[' + ';'.join(blist(a) for a in args) + ']', blist(o.encode('latin-1'))))
+    src = ('From GFS Require Import Base Driver.\n'
+           'Definition cases : list (list bytes * bytes) := [\n%s].\n'
+           'Definition mism : nat := List.length (filter (fun c => negb (beq (dispatch (fst c)) (snd c))) cases).\n'
+           'Definition M := Eval vm_compute in mism.\nPrint M.\n') % ';\n'.join(items)
+    d = tempfile.mkdtemp(prefix='xchk.', dir=WORK)
+    try:
+        open(d + '/xchk.v', 'w').write(src)
+        rc, out = sh('cd %s && timeout 600 coqc -Q %s/theories GFS xchk.v' % (d, COQ))
+    finally:
+        shutil.rmtree(d, ignore_errors=True)
+    m = re.search(r'M = (\d+)', out)
+    if rc != 0 or not m:
+        return len(pick), -1, 'in-Coq evaluation failed: ' + out[-400:]
+    return len(pick), int(m.group(1)), ''
